@@ -741,7 +741,7 @@ C09.nohook_monitor = c09_nohook_monitor
 class C10(E2Prop):
     id = 'C10'
     rule = ('message sequences x per-call write outcomes: accept k of n for every k on frames <= 12 bytes (exhaustive), random k on larger, WouldBlock runs 0-3 at every call index, '
-            'zero-length writes, hard errors x write_buffer_size {0,1,10,600}; wire checked against accepted writes by an independent parser')
+            'zero-length writes, hard errors x write_buffer_size {0,1,10,600}; 5-20 KiB messages accepted up to 4095/4096/4097/8192/half/two thirds/all-but-1 bytes then refused, followed by further writes, write_buffer_size {0,600,131072}; wire checked against accepted writes by an independent parser')
     level_text = 'invariant wire ++ out_buffer = concat(encode queued) for all histories/oracles; prefix, exactly-once acceptance, flush post-condition, zero-write (theorems)'
     level_note = 'Trusted: Coq kernel, Codec.v/Protocol.v, correspondence'
     def generate(self, tier, rng):
@@ -772,6 +772,22 @@ class C10(E2Prop):
             for n_ in ((2**18, 2**18 + 1) if tier == 'quick' else (2**18, 2**18 + 1, 2**20, 2**20 + 7)):
                 for wr in (['e:wb'], ['a:10', 'e:wb'], []):
                     out.append(ws.scase_line('g%d' % k, role, ['wb:' + ws.hx(bytes((i * 13) & 255 for i in range(n_))), 'f', 'f', 'wt:6869', 'f'], [], wr, [], wbs=rng.choice([0, 131072]))); k += 1
+        # mid-size messages (4-20 KiB) of which the transport takes a mid-range part (around 4096 / 8192, more than half,
+        # all but a few bytes) before refusing; the next operation is another write, not a flush (round j: lazy
+        # compaction of the out buffer that only triggers for an accepted prefix >= 4096 bytes and longer than the tail)
+        for role in 'sc':
+            for n1 in ((5000, 9000, 20000) if tier == 'quick' else (4200, 5000, 9000, 12000, 20000, 40000)):
+                flen = gen_e2.frame_size(role, n1)
+                p1 = bytes((i * 7 + 3) & 255 for i in range(n1))
+                for acc in sorted({4095, 4096, 4097, flen // 2, flen // 2 + 1, (2 * flen) // 3, 8192, flen - 10, flen - 1}):
+                    if not (0 < acc < flen): continue
+                    for wbs in (0, 600, 131072):
+                        for second in (['wt:6869'], ['wb:' + ws.hx(bytes(range(200))), 'wt:6869']):
+                            ops = ['wb:' + ws.hx(p1)] + (['f'] if wbs > flen else []) + second + ['f', 'f', 'f']
+                            out.append(ws.scase_line('m%d' % k, role, ops, [], ['a:%d' % acc, 'e:wb'], [], wbs=wbs)); k += 1
+                    # two partial rounds: accept, block, accept a little more, block again
+                    ops = ['wb:' + ws.hx(p1), 'wt:6869', 'wb:' + ws.hx(bytes(range(50))), 'f', 'f', 'f']
+                    out.append(ws.scase_line('m%d' % k, role, ops, [], ['a:%d' % acc, 'e:wb', 'a:7', 'e:wb'], [], wbs=0)); k += 1
         for i in range(300 if tier == 'quick' else 4000):
             role = 'cs'[i % 2]
             sizes = [rng.choice([0, 1, 5, 20]) for _ in range(rng.randint(2, 6))]
@@ -964,7 +980,7 @@ class C12(E2Prop):
 class C14(E2Prop):
     id = 'C14'
     impl_only_kinds = ('EP',)
-    rule = ('(write_buffer_size, max_write_buffer_size) over {0,1,2,9,10,11,12,20,600}^2 with max > wbs x message sizes 0..=12 x refusal windows (all-or-nothing and partial acceptance followed by WouldBlock) x ping floods while blocked; '
+    rule = ('(write_buffer_size, max_write_buffer_size) over {0,1,2,9,10,11,12,20,600}^2 with max > wbs x message sizes 0..=12 x refusal windows (all-or-nothing and partial acceptance followed by WouldBlock; partial flush of a batch under write_buffer_size 50/100/600 followed by small writes) x ping floods while blocked; '
             'WriteBufferFull decisions recomputed independently from sizes and accepted bytes')
     level_text = 'invariant |out_buffer| <= max (+ one pending control frame), WriteBufferFull hands the frame back and queues nothing, retry succeeds with room, batching threshold and eager mode (theorems)'
     level_note = 'Trusted: Coq kernel, Codec.v/Protocol.v, correspondence'
@@ -1006,6 +1022,20 @@ class C14(E2Prop):
                             b = gen_e2.frame_size(role, m)
                             ops = ['wb:' + ws.hx(bytes(range(n))), 'wb:' + ws.hx(bytes(range(m))), 'wb:' + ws.hx(bytes(range(m))), 'f', 'f', 'f']
                             out.append(ws.scase_line('pa%d' % k, role, ops, [], ['a:%d' % kacc, 'e:wb', 'e:wb', 'e:wb', 'a:100000', 'a:100000', 'a:100000'], [], wbs=0, max_=max(mx, b))); k += 1
+        # batching after a PARTIAL flush: the transport took up to half of a batch and then refused; the unsent remainder is at
+        # or below write_buffer_size again, so further small writes must not touch the transport (round j: threshold
+        # compared with a buffer length that still counted the already-sent prefix)
+        for role in 'sc':
+            for wbs in (50, 100, 600):
+                n = (wbs * 3) // 5
+                fsz = gen_e2.frame_size(role, n); total = 2 * fsz
+                for acc in sorted({1, total // 4, total // 2 - 1, total // 2, total - wbs, total - wbs + 1, total - 1}):
+                    if not (0 < acc < total): continue
+                    for small in (0, 5, 12):
+                        p_ = ws.hx(bytes(i & 255 for i in range(n)))
+                        ops = ['wb:' + p_, 'wb:' + p_, 'wb:' + ws.hx(bytes(range(small))), 'wt:6869', 'f', 'wb:' + ws.hx(bytes(range(small))), 'f', 'f']
+                        out.append(ws.scase_line('pb%d' % k, role, ops, [], ['a:%d' % acc, 'e:wb'] + ['a:100000'] * 8, [], wbs=wbs)); k += 1
+                        out.append(ws.scase_line('pb%d' % k, role, ops, [], ['a:%d' % acc, 'e:wb'] + ['a:100000'] * 8, [], wbs=wbs, max_=4 * total)); k += 1
         # sockets built by from_partially_read with leftover bytes (a frame glued to the handshake) obey the configured sizes like any other
         for role in 'sc':
             lead = gen_e2.peer_frame(role, 1, b'ok')
